@@ -521,55 +521,147 @@ Definition with_decls (c : conn) (ds : decls) : conn := mkConn (k_env c) (k_plug
 Definition inst_with (i : inst) (d : option decl) (b : decl) : inst :=
   mkInst (i_env i) (i_type i) (i_slots i) (i_plugs i) d b.
 
-(* CConn: the candidate; the implementation's verdict; the same candidate with a deny alternative added to the deny
-   subrule (of the checked kind) of every rule and the implementation's verdict for it; the same candidate with the
-   rules of the levels below the deciding one replaced and the verdict; guard = every compiled rule of every real
-   declaration has six non-empty alternative lists.
-   CInst: the same for InstallCandidate.Check (variant: deny alternative added to every deny-installation; variant:
-   base-declaration rules shadowed by the snap-declaration replaced). *)
+(* ------------------------------------------------------------------ the two variants the driver also runs *)
+(* a rule shortcut written out as the map it stands for *)
+Definition expand_short (b : bool) : rule_map :=
+  mkRuleMap (Some (SShort b)) (Some (SShort (negb b))) (Some (SShort b)) (Some (SShort (negb b)))
+            (Some (SShort b)) (Some (SShort (negb b))).
+
+(* add the alternative d to a deny subrule; `deny-*: true` absorbs it *)
+Definition add_deny_sub (d : alt) (s : option subrule_src) : option subrule_src :=
+  match s with
+  | None => Some (SOne d)
+  | Some (SShort false) => Some (SOne d)
+  | Some (SShort true) => s
+  | Some (SOne a) => Some (SAlts [a; d])
+  | Some (SAlts l) => Some (SAlts (l ++ [d]))
+  end.
+
+(* which: 0 deny-installation, 1 deny-connection, 2 deny-auto-connection *)
+Definition add_deny_map (which : N) (d : alt) (m : rule_map) : rule_map :=
+  match which with
+  | 0 => mkRuleMap (s_allow_inst m) (add_deny_sub d (s_deny_inst m)) (s_allow_conn m) (s_deny_conn m)
+                   (s_allow_auto m) (s_deny_auto m)
+  | 1 => mkRuleMap (s_allow_inst m) (s_deny_inst m) (s_allow_conn m) (add_deny_sub d (s_deny_conn m))
+                   (s_allow_auto m) (s_deny_auto m)
+  | _ => mkRuleMap (s_allow_inst m) (s_deny_inst m) (s_allow_conn m) (s_deny_conn m)
+                   (s_allow_auto m) (add_deny_sub d (s_deny_auto m))
+  end.
+Definition add_deny_rule (which : N) (d : alt) (r : rule_src) : rule_src :=
+  match r with
+  | RShort b => RMap (add_deny_map which d (expand_short b))
+  | RMap m => RMap (add_deny_map which d m)
+  end.
+(* dp is added to every plug rule, ds to every slot rule *)
+Definition decl_add_deny (which : N) (dp ds : alt) (d : decl) : decl :=
+  mkDecl (d_snap_id d) (d_pub_id d)
+         (map (fun ir => (fst ir, add_deny_rule which dp (snd ir))) (d_plugs d))
+         (map (fun ir => (fst ir, add_deny_rule which ds (snd ir))) (d_slots d)).
+Definition decls_add_deny (which : N) (dp ds : alt) (x : decls) : decls :=
+  mkDecls (option_map (decl_add_deny which dp ds) (plug_decl x)) (option_map (decl_add_deny which dp ds) (slot_decl x))
+          (decl_add_deny which dp ds (base_decl x)).
+
+(* drop the rule for iface, then (when low is given) add low as the rule for iface *)
+Definition set_rule (l : list (bytes * rule_src)) (iface : bytes) (low : option rule_src) : list (bytes * rule_src) :=
+  filter (fun ir => negb (beq (fst ir) iface)) l ++ match low with Some r => [(iface, r)] | None => [] end.
+
+(* 1..4: the level whose rule decides, 0: none *)
+Definition deciding_level (x : decls) (iface : bytes) : N :=
+  if match plug_decl x with Some d => has_key iface (d_plugs d) | None => false end then 1
+  else if match slot_decl x with Some d => has_key iface (d_slots d) | None => false end then 2
+  else if has_key iface (d_plugs (base_decl x)) then 3
+  else if has_key iface (d_slots (base_decl x)) then 4 else 0.
+
+(* every level below the deciding one gets its rule for iface replaced by low (or removed) *)
+Definition decls_low (x : decls) (iface : bytes) (low : option rule_src) : decls :=
+  let lv := deciding_level x iface in
+  if lv =? 0 then x else
+  let sd := if lv <? 2 then option_map (fun d => mkDecl (d_snap_id d) (d_pub_id d) (d_plugs d) (set_rule (d_slots d) iface low))
+                                       (slot_decl x) else slot_decl x in
+  let b := base_decl x in
+  let bp := if lv <? 3 then set_rule (d_plugs b) iface low else d_plugs b in
+  let bsl := if lv <? 4 then set_rule (d_slots b) iface low else d_slots b in
+  mkDecls (plug_decl x) sd (mkDecl (d_snap_id b) (d_pub_id b) bp bsl).
+
+(* installation: every base-declaration rule shadowed by a snap-declaration rule is replaced by low (or removed) *)
+Definition inst_base_low (i : inst) (low : option rule_src) : decl :=
+  let b := i_base i in
+  match i_decl i with
+  | None => b
+  | Some d =>
+      mkDecl (d_snap_id b) (d_pub_id b)
+             (fold_left (fun l ir => set_rule l (fst ir) low) (d_plugs d) (d_plugs b))
+             (fold_left (fun l ir => set_rule l (fst ir) low) (d_slots d) (d_slots b))
+  end.
+
+(* CConn: the candidate and the implementation's verdict; xp/xs: a deny alternative that the driver adds to the deny
+   subrule (of the checked kind) of every plug rule / slot rule, and the implementation's verdict then; low: the rule
+   the driver puts in place of the rules below the deciding level, and the verdict then; guard = every compiled rule
+   of every real declaration has six non-empty alternative lists.
+   CInst: the same for InstallCandidate.Check. *)
 Inductive case :=
-| CConn (auto : bool) (c : conn) (obs : verdict) (ds_deny : decls) (obs_deny : verdict)
-        (ds_low : decls) (obs_low : verdict) (guard : bool)
-| CInst (i : inst) (obs : verdict) (d_deny : option decl) (b_deny : decl) (obs_deny : verdict)
-        (b_low : decl) (obs_low : verdict) (guard : bool).
+| CConn (auto : bool) (c : conn) (obs : verdict) (xp xs : alt) (obs_deny : verdict)
+        (low : option rule_src) (obs_low : verdict) (guard : bool)
+| CInst (i : inst) (obs : verdict) (xp xs : alt) (obs_deny : verdict)
+        (low : option rule_src) (obs_low : verdict) (guard : bool).
+
+Definition conn_deny_variant (auto : bool) (c : conn) (xp xs : alt) : conn :=
+  with_decls c (decls_add_deny (if auto then 2 else 1) xp xs (k_decls c)).
+Definition conn_low_variant (c : conn) (low : option rule_src) : conn :=
+  with_decls c (decls_low (k_decls c) (f_iface (k_plug c)) low).
+Definition inst_deny_variant (i : inst) (xp xs : alt) : inst :=
+  inst_with i (option_map (decl_add_deny 0 xp xs) (i_decl i)) (decl_add_deny 0 xp xs (i_base i)).
+Definition inst_low_variant (i : inst) (low : option rule_src) : inst :=
+  inst_with i (i_decl i) (inst_base_low i low).
 
 Definition mismatch (x : case) : bool :=
   match x with
-  | CConn auto c obs dsd obsd dsl obsl _ =>
+  | CConn auto c obs xp xs obsd low obsl _ =>
       negb (conn_verdict_eqb auto (model_connect auto c) obs)
-      || negb (conn_verdict_eqb auto (model_connect auto (with_decls c dsd)) obsd)
-      || negb (conn_verdict_eqb auto (model_connect auto (with_decls c dsl)) obsl)
-  | CInst i obs dd bd obsd bl obsl _ =>
+      || match obs with
+         | VInvalid => false
+         | _ => negb (conn_verdict_eqb auto (model_connect auto (conn_deny_variant auto c xp xs)) obsd)
+                || negb (conn_verdict_eqb auto (model_connect auto (conn_low_variant c low)) obsl)
+         end
+  | CInst i obs xp xs obsd low obsl _ =>
       negb (verdict_eqb (model_install i) obs)
-      || negb (verdict_eqb (model_install (inst_with i dd bd)) obsd)
-      || negb (verdict_eqb (model_install (inst_with i (i_decl i) bl)) obsl)
+      || match obs with
+         | VInvalid => false
+         | _ => negb (verdict_eqb (model_install (inst_deny_variant i xp xs)) obsd)
+                || negb (verdict_eqb (model_install (inst_low_variant i low)) obsl)
+         end
   end.
 
 (* the property on the implementation's observed verdicts:
    - no panic, and the non-emptiness guard holds on the real compiled rules;
    - the verdict is the one the stated rule semantics gives (reference evaluator);
+   - the same for the two variants (the variant declarations are built both by the driver and by the model);
    - adding a deny alternative never turns Refused into Allowed;
    - rules below the deciding level are ignored. *)
 Definition monitor_fail (x : case) : bool :=
   match x with
-  | CConn auto c obs dsd obsd dsl obsl guard =>
+  | CConn auto c obs xp xs obsd low obsl guard =>
       match obs with
       | VInvalid => false
       | VPanic => true
       | _ =>
           negb guard
           || negb (Bool.eqb (is_allow obs) (spec_connect_allowed auto c))
+          || negb (Bool.eqb (is_allow obsd) (spec_connect_allowed auto (conn_deny_variant auto c xp xs)))
+          || negb (Bool.eqb (is_allow obsl) (spec_connect_allowed auto (conn_low_variant c low)))
           || (is_refuse obs && is_allow obsd)
           || match obsd with VPanic => true | _ => false end
           || negb (conn_verdict_eqb auto obs obsl)
       end
-  | CInst i obs dd bd obsd bl obsl guard =>
+  | CInst i obs xp xs obsd low obsl guard =>
       match obs with
       | VInvalid => false
       | VPanic => true
       | _ =>
           negb guard
           || negb (Bool.eqb (is_allow obs) (spec_install_allowed i))
+          || negb (Bool.eqb (is_allow obsd) (spec_install_allowed (inst_deny_variant i xp xs)))
+          || negb (Bool.eqb (is_allow obsl) (spec_install_allowed (inst_low_variant i low)))
           || (is_refuse obs && is_allow obsd)
           || match obsd with VPanic => true | _ => false end
           || negb (verdict_eqb obs obsl)
